@@ -126,8 +126,11 @@ func genericFor(id string, p *Prog, r *Report) {
 	switch id {
 	case "C01":
 		recordLinkRule(p, r, "R01.9", modset("vault"), 15)
+	case "C02":
+		recordLinkRule(p, r, "R02.7", modset("vault"), 15)
 	case "C03":
 		recordLinkRule(p, r, "R03.8", modset("vault"), 15)
+		priceDiscipline(p, r, "R03.10", modset("market", "vault"), 4)
 		scaleAgreementRule(p, r, "R03.9", modset("vault"), 3)
 	case "C09":
 		scaleAgreementRule(p, r, "R09.7", modset("vault", "liquidation", "liquidationsV2", "lend"), 3)
@@ -139,6 +142,9 @@ func genericFor(id string, p *Prog, r *Report) {
 	if ps, ok := pairTable[id]; ok {
 		rules := map[string]string{"C08": "R08.9", "C01": "R01.11", "C11": "R11.9", "C07": "R07.8"}
 		pairedWritersRule(p, r, rules[id], ps, len(ps))
+	}
+	if cs, ok := counterScopes[id]; ok {
+		counterProvenanceRule(p, r, cs.rule, cs.mods, cs.floor)
 	}
 	if rr, ok := replScopes[id]; ok {
 		replacedFieldRule(p, r, rr.rule, rr.mods, rr.floor)
@@ -258,4 +264,97 @@ var replScopes = map[string]struct {
 	"C10": {"R10.9", modset("auction", "auctionsV2"), 100},
 	"C13": {"R13.8", modset("locker", "collector"), 10},
 	"C18": {"R18.4", modset("rewards", "lend"), 50},
+}
+
+// counterProvenanceRule: id and length counters are plain uint64 cells with Get<N>/Set<N>
+// accessors. A counter is advanced from its own previous value (or set from the id of the
+// record just stored); feeding it from ANOTHER counter (the next vault id from the number of
+// open vaults) makes ids collide as soon as the two diverge.
+func counterProvenanceRule(p *Prog, r *Report, rule string, mods map[string]bool, floor int) {
+	r.Rule(rule, "a counter is advanced from its own previous value, never from another counter", floor)
+	isCounterGetter := func(f *ssa.Function) bool {
+		if f == nil || !isComdexFn(f) || f.Signature.Recv() == nil || !strings.HasPrefix(f.Name(), "Get") {
+			return false
+		}
+		sig := f.Signature
+		if sig.Params().Len() != 1 || sig.Results().Len() != 1 || !isUint64(sig.Results().At(0).Type()) {
+			return false
+		}
+		// it has a setter twin
+		return p.byName[short(fnPkgPath(f))+".Keeper.Set"+strings.TrimPrefix(f.Name(), "Get")] != nil
+	}
+	ops := p.operationalFns()
+	var fns []*ssa.Function
+	for f := range ops {
+		if mods[moduleOf(f)] && !p.isAuxFn(f) {
+			fns = append(fns, f)
+		}
+	}
+	sort.Slice(fns, func(i, j int) bool { return fname(fns[i]) < fname(fns[j]) })
+	for _, fn := range fns {
+		n := map[string]int{}
+		for _, c := range calls(fn) {
+			ts := p.Callees(c)
+			if len(ts) == 0 || !isComdexFn(ts[0]) || !strings.HasPrefix(ts[0].Name(), "Set") {
+				continue
+			}
+			set := ts[0]
+			sig := set.Signature
+			if sig.Params().Len() != 2 || !isUint64(sig.Params().At(1).Type()) || sig.Results().Len() != 0 {
+				continue
+			}
+			twin := p.byName[short(fnPkgPath(set))+".Keeper.Get"+strings.TrimPrefix(set.Name(), "Set")]
+			if twin == nil || !isCounterGetter(twin) {
+				continue
+			}
+			args := callArgs(c)
+			if len(args) < 2 {
+				continue
+			}
+			var foreign []string
+			own := false
+			for _, o := range p.DeepOrigins(args[1]) {
+				if o.Kind != "call" || len(o.Path) != 0 {
+					continue
+				}
+				for _, g := range p.Callees(o.Call) {
+					if !isCounterGetter(g) {
+						continue
+					}
+					if g == twin {
+						own = true
+					} else {
+						foreign = append(foreign, g.Name())
+					}
+				}
+			}
+			if !own && len(foreign) == 0 {
+				continue // set from a record id, the message or the genesis document
+			}
+			r.Instance(rule)
+			r.FuncsSeen[fname(fn)] = true
+			base := fmt.Sprintf("%s %s", fname(fn), set.Name())
+			n[base]++
+			construct := base
+			if n[base] > 1 {
+				construct = fmt.Sprintf("%s #%d", base, n[base])
+			}
+			if len(foreign) > 0 {
+				r.Fail(rule, construct, fmt.Sprintf("%s is fed from %v, a different counter: once the two counters diverge (a record is removed), newly assigned ids collide with live records or the count drifts", set.Name(), uniq(foreign)), p.instrPos(c), nil)
+			} else {
+				r.OK(rule, construct, "advanced from its own previous value", p.instrPos(c))
+			}
+		}
+	}
+}
+
+var counterScopes = map[string]struct {
+	rule  string
+	mods  map[string]bool
+	floor int
+}{
+	"C01": {"R01.12", modset("vault", "auction", "auctionsV2", "liquidation", "liquidationsV2", "esm"), 4},
+	"C02": {"R02.6", modset("vault"), 4},
+	"C08": {"R08.10", modset("lend"), 2},
+	"C13": {"R13.10", modset("locker"), 1},
 }
